@@ -67,14 +67,18 @@ HandleOffer(o) ==
   /\ UNCHANGED <<stored, delivered, outHeld, rPhase, rPermit, offerQueue, stopped>>
 
 \* the receive goroutine starts: (late) in-flight marking
+\* deviation "ReleaseAtAccept" (seed C16-2): the slot goes back as soon as the peer has connected, the read is still to come
 RecvStart(o) == /\ oPhase[o] = "spawned"
                 /\ inflight' = inflight \cup SeqSet(oAccepted[o]) /\ oMarked' = [oMarked EXCEPT ![o] = TRUE]
                 /\ oPhase' = [oPhase EXCEPT ![o] = "waiting"]
-                /\ UNCHANGED <<stored, inHeld, oVerdicts, oAccepted, oCid, oPermit, delivered, outHeld, rPhase, rPermit, offerQueue, stopped>>
+                /\ IF "ReleaseAtAccept" \in Devs THEN inHeld' = inHeld - 1 /\ oPermit' = [oPermit EXCEPT ![o] = "released"]
+                   ELSE UNCHANGED <<inHeld, oPermit>>
+                /\ UNCHANGED <<stored, oVerdicts, oAccepted, oCid, delivered, outHeld, rPhase, rPermit, offerQueue, stopped>>
 \* the transfer ends one way or another; the slot goes back first
 RecvOutcome(o, outcome) ==
    /\ oPhase[o] = "waiting"
-   /\ inHeld' = inHeld - 1 /\ oPermit' = [oPermit EXCEPT ![o] = "released"]
+   /\ IF oPermit[o] = "held" THEN inHeld' = inHeld - 1 /\ oPermit' = [oPermit EXCEPT ![o] = "released"]   \* release-once permit
+      ELSE UNCHANGED <<inHeld, oPermit>>
    /\ delivered' = IF outcome = "ok" THEN delivered \cup {<<o, oAccepted[o]>>} ELSE delivered
    /\ oPhase' = [oPhase EXCEPT ![o] = "ending"]
    /\ UNCHANGED <<stored, inflight, oVerdicts, oAccepted, oCid, oMarked, outHeld, rPhase, rPermit, offerQueue, stopped>>
@@ -106,11 +110,13 @@ OfferOutcome(r, outcome) ==
              /\ IF "EarlyReturnLeaksPermit" \in Devs THEN UNCHANGED <<outHeld, rPermit>> ELSE Release(r)
         [] outcome \in {"empty", "wrongcode", "undecodable", "wrongcount", "declined"} ->
              /\ rPhase' = [rPhase EXCEPT ![r] = "done"] /\ Release(r)
-        [] outcome = "accepted" ->
-             /\ rPhase' = [rPhase EXCEPT ![r] = "transfer"] /\ UNCHANGED <<outHeld, rPermit>>
+        [] outcome = "accepted" ->      \* deviation "ReleaseAtTransferStart": the slot goes back when the transfer goroutine is spawned
+             /\ rPhase' = [rPhase EXCEPT ![r] = "transfer"]
+             /\ IF "ReleaseAtTransferStart" \in Devs THEN Release(r) ELSE UNCHANGED <<outHeld, rPermit>>
    /\ UNCHANGED <<stored, inflight, inHeld, oPhase, oVerdicts, oAccepted, oCid, oPermit, oMarked, delivered, offerQueue, stopped>>
 \* the transfer goroutine ends: dial / write failure, success or shutdown - always through the deferred release
-TransferEnd(r) == /\ rPhase[r] = "transfer" /\ rPhase' = [rPhase EXCEPT ![r] = "done"] /\ Release(r)
+TransferEnd(r) == /\ rPhase[r] = "transfer" /\ rPhase' = [rPhase EXCEPT ![r] = "done"]
+                  /\ IF rPermit[r] = "held" THEN Release(r) ELSE UNCHANGED <<outHeld, rPermit>>
                   /\ UNCHANGED <<stored, inflight, inHeld, oPhase, oVerdicts, oAccepted, oCid, oPermit, oMarked, delivered, offerQueue, stopped>>
 Stop == /\ ~stopped /\ stopped' = TRUE
         /\ IF "StopLeavesQueued" \in Devs THEN UNCHANGED <<outHeld, rPermit, offerQueue, rPhase>>
@@ -140,6 +146,9 @@ NoDoubleReceive == \A o1, o2 \in Offers : (o1 # o2 /\ OfferVer[o1] = 1 /\ OfferV
                         => SeqSet(oAccepted[o1]) \cap SeqSet(oAccepted[o2]) = {}
 DeliveredExactly == \A d \in delivered : d[2] = oAccepted[d[1]]
 \* ---- C16 ----
+\* transfers in progress, counted from the phases and not from the slots
+TransfersWithinLimit == /\ Cardinality({o \in Offers : oPhase[o] \in {"spawned", "waiting"}}) <= Limit
+                        /\ Cardinality({r \in OutReqs : rPhase[r] = "transfer"}) <= Limit
 HeldWithinLimit == inHeld >= 0 /\ inHeld <= Limit /\ outHeld >= 0 /\ outHeld <= Limit
 Quiescent == /\ \A o \in Offers : oPhase[o] \in {"new", "done"}
              /\ \A r \in OutReqs : rPhase[r] \in {"new", "done"}
